@@ -79,7 +79,7 @@ def next_timestamp(vc):
         vc.check('post/' + name, cond)
 
 
-@harness('C31', 'init', functions=[Q + '.__init__'])
+@harness('C31', 'init', functions=[Q + '.__init__'], native='contracts.native.c31:replay')
 def init(vc):
     """ensures last == 0 (no timestamp returned yet: invariant holds initially)"""
     from cassandra.timestamps import MonotonicTimestampGenerator
